@@ -925,4 +925,7 @@ func TestVF_C15(t *testing.T) {
 		}
 		_ = os.RemoveAll(root)
 	}
+	if !doReplay || replay == -1 {
+		c15StraceRun(t, run)
+	}
 }
